@@ -303,8 +303,10 @@ Qed.
    front are whole derivations.  [base_v X] / [base_a X]: what the innermost item in progress is. *)
 Variable base_v : list token -> Prop.   (* at a Value position: parse_value stops on it *)
 Variable base_a : list token -> Prop.   (* at an item start where an association is tried first: parse_association stops *)
+Variable base_c : list token -> Prop.   (* a collection in progress on which parse_collection stops ("[" followed by an Error token) *)
 Hypothesis base_v_ok : forall X, base_v X -> VStop X.
 Hypothesis base_a_ok : forall X, base_a X -> AStop X /\ lit_head X.
+Hypothesis base_c_ok : forall X, base_c X -> CStop X /\ coll_head X.
 
 Inductive vstop : list token -> Prop :=
 | vs_base : forall X, base_v X -> vstop X
@@ -313,6 +315,7 @@ with astop : list token -> Prop :=
 | as_base : forall X, base_a X -> astop X
 | as_value : forall k kv c X, litv fparse k kv -> dl 58 c -> vstop X -> astop (k :: c :: X)       (* after key ":" *)
 with cstop : list token -> Prop :=
+| cs_base : forall X, base_c X -> cstop X
 | cs_first_assoc : forall lb X, dl 91 lb -> astop X -> cstop (lb :: X)                              (* after "[" *)
 | cs_first_coll : forall lb X, dl 91 lb -> cstop X -> cstop (lb :: X)
 | cs_later_value : forall lb ts v tail vs c X, dl 91 lb -> dvalue fparse crank ts v -> dvtail_i fparse crank tail vs ->
@@ -339,6 +342,7 @@ Proof.
   - intros X C (IH & (h & t & E & Bh)). subst X. apply CStop_VStop; auto.
   - intros X H. apply base_a_ok, H.
   - intros k kv c X L Bc V IH. split; [apply (AStop_value k kv c X L Bc IH)|]. exists k, (c :: X). split; auto. apply L.
+  - intros X H. apply base_c_ok, H.
   - intros lb X B A (IH & Hh). split; [apply first_inline_assoc; auto|eexists _, _; eauto].
   - intros lb X B C (IH & Hh). split; [|eexists _, _; eauto]. apply first_inline_coll; auto.
     destruct Hh as (h & t & -> & Bh). apply CStop_VStop; auto.
@@ -398,6 +402,80 @@ Lemma lit_head_bad t : badlit t -> lit_head [t].
 Proof. intros (L & _). exists t, []. auto. Qed.
 End Base.
 
+(* ---------- the base case: "[" followed by an Error token ---------- *)
+Section OpenError.
+Variable fparse : list Z -> option Z.
+Variable crank : val -> val -> option comparison.
+Notation pc := (parse_collection fparse crank).
+
+(* a token at the head of the push-back stack that does not match is pushed back: the state is unchanged
+   (no hypothesis on its type: an Error token on the stack is handed out like any other) *)
+Lemma tok_no_pb ty w s t p : pb s = t :: p -> P s <= 3 -> tok_matches ty w t = false -> parse_token ty w s = No t s.
+Proof.
+  destruct s as [pb0 rest0]. unfold P. simpl. intros -> HP M. unfold parse_token, get_next. simpl.
+  fold (tok_matches ty w t). rewrite M. unfold put_back. simpl.
+  simpl in HP. destruct p as [|a1 [|a2 [|a3 p']]]; simpl in HP; try lia; reflexivity.
+Qed.
+
+Lemma pif_no_pb tys : forall t0 s t p, pb s = t :: p -> P s <= 3 ->
+  (forall ty, In ty tys -> ttype_eqb (ttype_of t) ty = false) -> tys <> [] ->
+  parse_intrinsic_from fparse tys (No t0 s) = No t s.
+Proof.
+  induction tys as [|ty r IH]; intros t0 s t p Hp HP Hno Hne; [congruence|]. simpl.
+  rewrite (tok_no_pb ty None s t p Hp HP) by (rewrite tok_matches_none; apply Hno; left; reflexivity).
+  destruct r as [|ty' r']; [reflexivity|]. apply (IH t s t p Hp HP); [|discriminate].
+  intros x Hx. apply Hno. right. exact Hx.
+Qed.
+
+(* "[" followed by an Error token: the diagnostic names the Error token — read from the queue get_next stops
+   on it; handed out from the push-back stack every alternative of parseItems fails on it and parseSequence
+   blames the token of the last attempt *)
+Lemma open_error lb e : dl 91 lb -> ttype_of e = TError -> CStop fparse crank (PSyntax e) [lb; e].
+Proof.
+  intros B Te f s r HP E Hf. destruct f as [|f']; [lia|]. simpl. unfold parse_collection_body, parse_sequence.
+  simpl in E.
+  destruct (tok_yes TDelimiter (delim 91) s lb _ HP E (dl_nonerr _ _ B) (dl_match _ _ B)) as (s1 & T1 & E1 & P1).
+  rewrite T1. assert (HP1 : P s1 <= 3) by lia.
+  assert (Hf' : 1 < f') by (rewrite E in Hf; simpl in Hf; lia).
+  destruct (pb s1) as [|t p] eqn:Hpb.
+  - (* read from the queue *)
+    unfold stream in E1. rewrite Hpb in E1. simpl in E1.
+    unfold parse_items, parse_associations, parse_token, get_next. rewrite Hpb, E1, Te. reflexivity.
+  - (* handed out from the push-back stack *)
+    assert (Et : t = e) by (unfold stream in E1; rewrite Hpb in E1; simpl in E1; congruence). subst t.
+    assert (Md : forall c, tok_matches TDelimiter (delim c) e = false) by (intros c; unfold tok_matches; rewrite Te; reflexivity).
+    assert (Me : tok_matches TEOL None e = false) by (unfold tok_matches; rewrite Te; reflexivity).
+    assert (Hpi : parse_intrinsic fparse s1 = No e s1).
+    { unfold parse_intrinsic. apply (pif_no_pb intrinsic_types _ s1 e p Hpb HP1); [|discriminate].
+      intros ty Hin. rewrite Te. simpl in Hin. intuition (subst; reflexivity). }
+    unfold parse_items, parse_associations. rewrite (tok_no_pb _ _ s1 e p Hpb HP1 (Md 58%Z)).
+    unfold parse_inline_associations, parse_association. rewrite Hpi.
+    unfold parse_multiline_associations. rewrite (tok_no_pb _ _ s1 e p Hpb HP1 Me).
+    unfold parse_values. rewrite (tok_no_pb _ _ s1 e p Hpb HP1 (Md 93%Z)).
+    unfold parse_inline_values, parse_value. rewrite Hpi.
+    destruct f' as [|f'']; [lia|]. cbn [parse_collection]. unfold parse_collection_body, parse_sequence.
+    rewrite (tok_no_pb _ _ s1 e p Hpb HP1 (Md 91%Z)).
+    unfold parse_multiline_values. rewrite (tok_no_pb _ _ s1 e p Hpb HP1 Me). reflexivity.
+Qed.
+
+(* viable prefixes that end in "[" and an Error token e *)
+Definition ebase (e : token) (X : list token) : Prop := exists lb, dl 91 lb /\ X = [lb; e].
+Definition estopv e := vstop fparse crank (fun _ => False) (fun _ => False) (ebase e).
+Definition estopc e := cstop fparse crank (fun _ => False) (fun _ => False) (ebase e).
+
+(* THE PARSER ON A PROPER PREFIX OF A DERIVATION THAT ENDS IN "[" FOLLOWED BY AN ERROR TOKEN (the shape of an
+   elided formatter output): the diagnostic is for that Error token *)
+Theorem prefix_open_error e ts r : ttype_of e = TError -> estopc e ts -> parse_tokens fparse crank (ts ++ r) = PSyntax e.
+Proof.
+  intros Te C. apply CStop_tokens.
+  destruct (stops_sound fparse crank (PSyntax e) (fun _ => False) (fun _ => False) (ebase e)) as (_ & _ & Hc).
+  - intros X [].
+  - intros X [].
+  - intros X (lb & B & ->). split; [apply open_error; auto|]. exists lb, [e]. auto.
+  - apply (proj1 (Hc ts C)).
+Qed.
+End OpenError.
+
 (* ---------- the packaged theorem for an inexact literal ---------- *)
 Section BadLiteral.
 Variable fparse : list Z -> option Z.
@@ -406,9 +484,9 @@ Variable b : token.
 Hypothesis Hb : badlit fparse b.
 
 (* viable prefixes that end in the literal token b, standing where a Value or a key may stand *)
-Definition lstopv := vstop fparse crank (eq [b]) (eq [b]).
-Definition lstopa := astop fparse crank (eq [b]) (eq [b]).
-Definition lstopc := cstop fparse crank (eq [b]) (eq [b]).
+Definition lstopv := vstop fparse crank (eq [b]) (eq [b]) (fun _ => False).
+Definition lstopa := astop fparse crank (eq [b]) (eq [b]) (fun _ => False).
+Definition lstopc := cstop fparse crank (eq [b]) (eq [b]) (fun _ => False).
 
 (* THE PARSER ON A PROPER PREFIX OF A DERIVATION FOLLOWED BY AN INEXACT LITERAL: whatever follows,
    the outcome is the diagnostic for that literal's token — never a value, never a diagnostic for an
@@ -416,9 +494,10 @@ Definition lstopc := cstop fparse crank (eq [b]) (eq [b]).
 Theorem prefix_bad_literal ts r : lstopc ts -> parse_tokens fparse crank (ts ++ r) = PSyntax b.
 Proof.
   intros C. apply CStop_tokens.
-  destruct (stops_sound fparse crank (PSyntax b) (eq [b]) (eq [b])) as (_ & _ & Hc).
+  destruct (stops_sound fparse crank (PSyntax b) (eq [b]) (eq [b]) (fun _ => False)) as (_ & _ & Hc).
   - intros X <-. apply VStop_bad, Hb.
   - intros X <-. split; [apply AStop_bad, Hb|apply lit_head_bad with (fparse := fparse), Hb].
+  - intros X [].
   - apply (proj1 (Hc ts C)).
 Qed.
 End BadLiteral.
